@@ -2,9 +2,9 @@ package sqlittle
 
 import (
 	"fmt"
-	"strings"
 
 	sdb "github.com/alicebob/sqlittle/db"
+	"github.com/alicebob/sqlittle/internal/ascii"
 )
 
 type columnIndex struct {
@@ -38,7 +38,7 @@ func toColumnIndexRowid(s *sdb.Schema, columns []string) ([]columnIndex, error) 
 	for _, c := range columns {
 		n := s.Column(c)
 		if n < 0 {
-			cup := strings.ToUpper(c)
+			cup := ascii.Upper(c)
 			if cup == "ROWID" || cup == "OID" || cup == "_ROWID_" {
 				res = append(res, columnIndex{nil, n, true})
 				continue
@@ -81,11 +81,11 @@ func columnStoreOrder(schema *sdb.Schema) []int {
 	// all PK columns come first, then all other columns, in order
 	var cols = make([]string, 0, len(schema.Columns))
 	for _, c := range schema.PK {
-		cols = append(cols, strings.ToLower(c.Column))
+		cols = append(cols, ascii.Lower(c.Column))
 	}
 loop:
 	for _, c := range schema.Columns {
-		n := strings.ToLower(c.Column)
+		n := ascii.Lower(c.Column)
 		for _, oc := range cols {
 			if oc == n {
 				continue loop
@@ -97,7 +97,7 @@ loop:
 	res := make([]int, len(schema.Columns))
 loop2:
 	for i, c := range schema.Columns {
-		n := strings.ToLower(c.Column)
+		n := ascii.Lower(c.Column)
 		for j, oc := range cols {
 			if oc == n {
 				res[i] = j
@@ -121,13 +121,13 @@ func pkColumns(schema *sdb.Schema, ind *sdb.SchemaIndex) []int {
 		if c == "" {
 			return sdb.DefaultCollate
 		}
-		return strings.ToLower(c)
+		return ascii.Lower(c)
 	}
 	var res []int
 pk:
 	for _, c := range schema.PK {
 		for in, ic := range ind.Columns {
-			if strings.EqualFold(ic.Column, c.Column) && collate(ic.Collate) == collate(c.Collate) {
+			if ascii.EqualFold(ic.Column, c.Column) && collate(ic.Collate) == collate(c.Collate) {
 				res = append(res, in)
 				continue pk
 			}
